@@ -151,3 +151,44 @@ def check_invariance(task, inp):
                 if not close(x, y):
                     return "%s: %r changed from %r to %r under %s" % (task.name, k, x, y, what)
     return None
+
+
+PITCH_TASKS = ("melody", "multipitch", "transcription")
+OCTAVE_EST_SCORES = {"melody": ["Raw Chroma Accuracy"],
+                     "multipitch": ["Chroma Precision", "Chroma Recall", "Chroma Accuracy", "Chroma Substitution Error",
+                                    "Chroma Miss Error", "Chroma False Alarm Error", "Chroma Total Error"]}
+
+
+@guarded
+def check_pitch(task, inp):
+    """C09 (pitch part): joint frequency scaling, octave shift of the estimate only, negated melody estimates"""
+    kw = kwargs_of(inp)
+    base = _scores(task, inp, **kw)
+    tr = inp.get("transform") or {}
+    fac = tr.get("factor", "2")
+    both = dict(inp)
+    both["hz"] = {"ref": fac, "est": fac}
+    sc = _scores(task, both, **kw)
+    for k in base:
+        x, y = T.scalar(base[k]), T.scalar(sc.get(k))
+        if not close(x, y):
+            return "%s: %r changed from %r to %r when all frequencies were multiplied by %s" % (task.name, k, x, y, fac)
+    if task.name in OCTAVE_EST_SCORES:
+        octv = tr.get("octave", "2")
+        eo = dict(inp)
+        eo["hz"] = {"ref": "1", "est": octv}
+        sc = _scores(task, eo, **kw)
+        for k in OCTAVE_EST_SCORES[task.name]:
+            x, y = T.scalar(base[k]), T.scalar(sc.get(k))
+            if not close(x, y):
+                return "%s: %r changed from %r to %r when only the estimate was moved by the octave factor %s" % (
+                    task.name, k, x, y, octv)
+    if task.name == "melody":
+        neg = dict(inp)
+        neg["est"] = [inp["est"][0], [None if m is None else ("-" + m if not m.startswith("-") else m) for m in inp["est"][1]]]
+        sc = _scores(task, neg, **kw)
+        for k in ("Raw Pitch Accuracy", "Raw Chroma Accuracy"):
+            x, y = T.scalar(base[k]), T.scalar(sc.get(k))
+            if not close(x, y):
+                return "melody: %r changed from %r to %r when the estimated frequencies were negated" % (k, x, y)
+    return None
